@@ -12,8 +12,8 @@ def run(ctx):
                       "verdict, reason, observed projection) tuples excluding unauthentic submissions. Monitor PropC21 decides every "
                       "mismatch and %d recorded random histories x %d steps. Oracle: import refused without state change when source or destination is unregistered / blacklisted or the source router is before its start block; BlackChain / WhiteChain effective for all later imports; a valid fresh import with open gates is accepted." % (n, ln),
                       assumptions=["one relay-chain validator (operator = its address); vote thresholds are C25",
-                                   "valid imports exist for the vote, bsc and hsc routers only (synthetic chains, real seals and MPT proofs); "
-                                   "other routers share entrance.go but their handlers' done-check call sites are not executed",
+                                   "valid imports exist for the vote, ripple, eth, bsc, heco, hsc and bytom routers (synthetic chains, real PoSA seals, Ethash seal decided by the verif hook, real MPT proofs); "
+                                   "the other routers (coverage.routers_uncovered) share entrance.go but their handlers' done-check call sites are not executed",
                                    "a refused call's writes are discarded by the per-transaction cache reset (the ledger's rule, C15); "
                                    "'accepted' = success with an effect; an exact replay on the vote router answers success without effect",
                                    "router start block: relay height 18822999 vs 18823000 on main net; the hsc light client is synced at a later "
